@@ -105,13 +105,29 @@ def _number(e):
 
 
 def _written_array(fn):
-    """the expression (locals inlined) handed to `emfile.write(path, <array>, …)` in EmMotl.write_out"""
+    """the expression (locals inlined) handed to `emfile.write(path, <array>, …)` in EmMotl.write_out. DENY BY DEFAULT at
+    statement level: the body may only bind locals, set `self.header` and call `emfile.write` once; any other statement
+    (a loop, an in-place call on the table, a re-binding of `self.df`, …) is something the model of the writer does not
+    know and fails the anchor, quoted."""
     found = []
+
+    def is_write(n):
+        return isinstance(n, ast.Call) and isinstance(n.func, ast.Attribute) and n.func.attr == "write" \
+            and isinstance(n.func.value, ast.Name) and n.func.value.id == "emfile"
+
+    for st in _body(fn):
+        local_bind = (isinstance(st, ast.Assign) and len(st.targets) == 1 and (isinstance(st.targets[0], ast.Name) or (
+            isinstance(st.targets[0], ast.Tuple) and all(isinstance(x, ast.Name) for x in st.targets[0].elts)))) \
+            or (isinstance(st, ast.AnnAssign) and isinstance(st.target, ast.Name))
+        header_bind = isinstance(st, ast.Assign) and len(st.targets) == 1 and isinstance(st.targets[0], ast.Attribute) \
+            and isinstance(st.targets[0].value, ast.Name) and st.targets[0].value.id == "self" and st.targets[0].attr == "header"
+        if not (local_bind or header_bind or (isinstance(st, ast.Expr) and is_write(st.value)) or isinstance(st, ast.Pass)):
+            raise core.AnchorMissing("EmMotl.write_out: statement `" + ast.unparse(st).splitlines()[0][:100] + "` is not one the model of the writer "
+                                     "knows (local bindings, `self.header = …`, one `emfile.write(path, array, …)`)")
 
     def sink(expr):
         for n in ast.walk(expr):
-            if isinstance(n, ast.Call) and isinstance(n.func, ast.Attribute) and n.func.attr == "write" \
-                    and isinstance(n.func.value, ast.Name) and n.func.value.id == "emfile":
+            if is_write(n):
                 arr = n.args[1] if len(n.args) >= 2 else next((k.value for k in n.keywords if k.arg == "data"), None)
                 if arr is not None:
                     found.append(arr)
@@ -119,6 +135,97 @@ def _written_array(fn):
     if len(found) != 1:
         raise core.AnchorMissing(f"EmMotl.write_out: expected exactly one `emfile.write(path, array, …)` call, found {len(found)}")
     return found[0]
+
+
+def _np_func(e, names):
+    return isinstance(e, ast.Call) and isinstance(e.func, ast.Attribute) and e.func.attr in names \
+        and isinstance(e.func.value, ast.Name) and e.func.value.id in ("np", "numpy")
+
+
+def _full_slice(e):
+    return isinstance(e, ast.Slice) and e.lower is None and e.upper is None and e.step is None
+
+
+def _writer_ops(e, facts):
+    """DENY BY DEFAULT on the written-array expression: it must be built from `self.df` by operations that keep every
+    particle, its position and its numbers (selection of columns by `motl_columns`, `.fillna(<number>)`, `.to_numpy()` /
+    `.values` / `.copy()`, `.reshape(…)`, casts, `+ 0`); `facts` collects selection / fill literals / cast dtypes.
+    Anything else (sort_index, iloc[:k], clip, round, np.where, drop_duplicates, …) raises AnchorMissing with the
+    offending sub-expression quoted."""
+    def unknown(n, why="is not an operation the model of the writer knows"):
+        raise core.AnchorMissing(f"EmMotl.write_out: `{ast.unparse(n)[:110]}` {why} (known: `self.df[Motl.motl_columns]`, "
+                                 "`.fillna(0.0)`, `.to_numpy()`, `.reshape(…)`, `.astype(np.single)`)")
+
+    def shape_expr(x):      # arguments of reshape: constants and extents of a (valid) array expression
+        if isinstance(x, ast.Tuple):
+            for el in x.elts:
+                shape_expr(el)
+        elif (isinstance(x, ast.Constant) and isinstance(x.value, int)) or isinstance(x, ast.Name):   # a literal or a local count
+            pass
+        elif isinstance(x, ast.UnaryOp) and isinstance(x.op, ast.USub) and isinstance(x.operand, ast.Constant):
+            pass
+        elif isinstance(x, ast.Subscript) and isinstance(x.value, ast.Attribute) and x.value.attr == "shape" and isinstance(x.slice, ast.Constant):
+            _writer_ops(x.value.value, {"sel": [], "fill": [], "cast": []})
+        elif isinstance(x, ast.Call) and isinstance(x.func, ast.Name) and x.func.id == "len" and len(x.args) == 1:
+            _writer_ops(x.args[0], {"sel": [], "fill": [], "cast": []})
+        else:
+            unknown(x, "is not a shape the model of the writer knows")
+
+    if isinstance(e, ast.Attribute) and isinstance(e.value, ast.Name) and e.value.id == "self" and e.attr == "df":
+        return
+    if isinstance(e, ast.Attribute) and e.attr == "values":
+        return _writer_ops(e.value, facts)
+    if isinstance(e, ast.BinOp) and isinstance(e.op, (ast.Add, ast.Sub)):
+        if _number(e.right) == 0:
+            return _writer_ops(e.left, facts)
+        if _number(e.left) == 0 and isinstance(e.op, ast.Add):
+            return _writer_ops(e.right, facts)
+        unknown(e)
+    if isinstance(e, ast.Subscript):
+        base, sl = e.value, e.slice
+        if isinstance(base, ast.Attribute) and base.attr in ("loc", "iloc") and isinstance(sl, ast.Tuple) and len(sl.elts) == 2 and _full_slice(sl.elts[0]):
+            if _is_motl_columns(sl.elts[1]) and base.attr == "loc":
+                facts["sel"].append(True)
+                return _writer_ops(base.value, facts)
+            if _full_slice(sl.elts[1]):
+                return _writer_ops(base.value, facts)
+            unknown(e)
+        if _is_motl_columns(sl):
+            facts["sel"].append(True)
+            return _writer_ops(base, facts)
+        unknown(e, "selects rows or columns in a way the model of the writer does not know")
+    if isinstance(e, ast.Call):
+        kw = {k.arg: k.value for k in e.keywords if k.arg}
+        if _np_func(e, ("asarray", "array", "ascontiguousarray", "asanyarray")) and len(e.args) == 1 and set(kw) <= {"dtype", "copy", "order"}:
+            if "dtype" in kw:
+                facts["cast"].append(_dtype_name(kw["dtype"]))
+            return _writer_ops(e.args[0], facts)
+        if _np_func(e, ("reshape",)) and len(e.args) == 2 and not kw:
+            shape_expr(e.args[1])
+            return _writer_ops(e.args[0], facts)
+        if isinstance(e.func, ast.Attribute):
+            m, recv = e.func.attr, e.func.value
+            if m == "fillna" and (len(e.args) + len(kw)) == 1 and (e.args or "value" in kw):
+                v = _number(e.args[0] if e.args else kw["value"])
+                if v is None:
+                    unknown(e, "fills with something that is not a number literal (was `.fillna(0.0)`);")
+                facts["fill"].append(v)
+                return _writer_ops(recv, facts)
+            if m in ("to_numpy", "copy") and not e.args and set(kw) <= {"dtype", "copy", "deep"}:
+                if "dtype" in kw:
+                    facts["cast"].append(_dtype_name(kw["dtype"]))
+                return _writer_ops(recv, facts)
+            if m == "astype" and (len(e.args) == 1 or "dtype" in kw) and set(kw) <= {"dtype", "copy"}:
+                facts["cast"].append(_dtype_name(e.args[0] if e.args else kw["dtype"]))
+                return _writer_ops(recv, facts)
+            if m == "reshape" and not kw:
+                for x in e.args:
+                    shape_expr(x)
+                return _writer_ops(recv, facts)
+            if m in ("reindex", "filter") and not e.args and len(kw) == 1 and _is_motl_columns(kw.get("columns", kw.get("items"))):
+                facts["sel"].append(True)
+                return _writer_ops(recv, facts)
+    unknown(e)
 
 
 def translate(src):
@@ -154,37 +261,76 @@ def translate(src):
     n20 = src.anchor("EmMotl.read_in:rejects-unless-K-columns", read_guard)
 
     def write_facts():
-        """facts about the array EmMotl.write_out hands to emfile.write, read off its data-flow expression:
-        [selected by `[…motl_columns]`, fill literal of `.fillna(<number>)` or None, last cast is to single precision]"""
+        """facts about the array EmMotl.write_out hands to emfile.write, read off its data-flow expression (every node of
+        which must be a known, particle-preserving operation — see _writer_ops):
+        [selected by `[…motl_columns]`, fill literal of `.fillna(<number>)`, last cast is to single precision]"""
         arr = _written_array(src.find(rel, "EmMotl.write_out"))
-        selects, fills, casts = False, [], []
-        for n in ast.walk(arr):
-            if isinstance(n, ast.Subscript):
-                sl = n.slice.elts[-1] if isinstance(n.slice, ast.Tuple) and n.slice.elts else n.slice  # df[c] / df.loc[:, c]
-                selects = selects or _is_motl_columns(sl)
-            if isinstance(n, ast.Call):
-                fname = n.func.attr if isinstance(n.func, ast.Attribute) else (n.func.id if isinstance(n.func, ast.Name) else None)
-                kw = {k.arg: k.value for k in n.keywords if k.arg}
-                if fname in ("reindex", "filter") and _is_motl_columns(kw.get("columns", kw.get("items", None))):
-                    selects = True
-                if fname == "fillna":
-                    v = _number(n.args[0] if n.args else kw.get("value"))
-                    if v is None:
-                        raise core.AnchorMissing(f"EmMotl.write_out: fill value of `{ast.unparse(n)[-60:]}` is not a number literal (was `.fillna(0.0)`)")
-                    fills.append(v)
-                if fname == "astype" and (n.args or "dtype" in kw):
-                    casts.append((n.lineno, n.col_offset, _dtype_name(n.args[0] if n.args else kw["dtype"])))
-                elif fname in ("asarray", "array", "ascontiguousarray") and "dtype" in kw:
-                    casts.append((n.lineno, n.col_offset, _dtype_name(kw["dtype"])))
-        if len(set(fills)) > 1:
-            raise core.AnchorMissing(f"EmMotl.write_out: several different fill values {sorted(set(fills))} (was one `.fillna(0.0)`)")
-        fill = fills[0] if fills else None
-        if fill is not None and float(fill) != int(fill):
+        facts = {"sel": [], "fill": [], "cast": []}
+        _writer_ops(arr, facts)
+        shown = ast.unparse(arr)
+        shown = shown if len(shown) < 160 else shown[:157] + "..."
+        if len(set(facts["fill"])) > 1:
+            raise core.AnchorMissing(f"EmMotl.write_out: several different fill values {sorted(set(facts['fill']))} (was one `.fillna(0.0)`)")
+        if not facts["fill"]:
+            # a missing anchor never changes the model: the documented literal stays, the obligation fails and says why
+            raise core.AnchorMissing(f"EmMotl.write_out: `.fillna(0.0)` not found in the written array `{shown}`")
+        fill = facts["fill"][0]
+        if float(fill) != int(fill):
             raise core.AnchorMissing(f"EmMotl.write_out: fill value {fill} is not an integer (was `.fillna(0.0)`)")
-        names = {d for _, _, d in casts}
-        single = bool(casts) and names <= (_SINGLE | _DOUBLE) and bool(names & _SINGLE)   # to single, never through a narrower type
-        return [bool(selects), None if fill is None else int(fill), single]
+        names = set(facts["cast"])
+        single = bool(names) and names <= (_SINGLE | _DOUBLE) and bool(names & _SINGLE)   # to single, never through a narrower type
+        return [bool(facts["sel"]), int(fill), single]
 
+    def _default_of(fn, arg):
+        """documented default of keyword `arg` in the signature (annotations ignored)"""
+        names = [a.arg for a in fn.args.args]
+        if arg not in names:
+            raise core.AnchorMissing(f"{fn.name}: no parameter `{arg}`")
+        k = names.index(arg) - (len(names) - len(fn.args.defaults))
+        if k < 0 or not isinstance(fn.args.defaults[k], ast.Constant) or not isinstance(fn.args.defaults[k].value, str):
+            raise core.AnchorMissing(f"{fn.name}: parameter `{arg}` has no string default (was `{arg}=\"emmotl\"`)")
+        return fn.args.defaults[k].value
+
+    def _em_branch(fn, arg):
+        """the branch of the `if <arg>[.lower()] == "emmotl":` chain  ->  (lowers, its body statements)"""
+        for st in ast.walk(fn):
+            if isinstance(st, ast.If) and isinstance(st.test, ast.Compare) and len(st.test.ops) == 1 and isinstance(st.test.ops[0], ast.Eq):
+                l, r = st.test.left, st.test.comparators[0]
+                if isinstance(l, ast.Constant):
+                    l, r = r, l
+                if isinstance(r, ast.Constant) and r.value == "emmotl":
+                    if isinstance(l, ast.Name) and l.id == arg:
+                        return False, st.body
+                    if isinstance(l, ast.Call) and isinstance(l.func, ast.Attribute) and l.func.attr == "lower" and not l.args \
+                            and isinstance(l.func.value, ast.Name) and l.func.value.id == arg:
+                        return True, st.body
+        raise core.AnchorMissing(f"{fn.name}: no branch `if {arg}[.lower()] == \"emmotl\":`")
+
+    def write_dispatch():
+        """Motl.write_out: [default of motl_type, type compared case-insensitively, the emmotl branch is `EmMotl(self.df).write_out(<path>)`]"""
+        fn = src.find(rel, "Motl.write_out")
+        lowers, body = _em_branch(fn, "motl_type")
+        path = fn.args.args[1].arg
+        ok = len(body) == 1 and isinstance(body[0], ast.Expr) and ast.dump(body[0].value) == ast.dump(ast.parse(f"EmMotl(self.df).write_out({path})", mode="eval").body)
+        if not ok:
+            raise core.AnchorMissing("Motl.write_out: the emmotl branch is `" + "; ".join(ast.unparse(b) for b in body)[:100] + f"` (was `EmMotl(self.df).write_out({path})`)")
+        return [_default_of(fn, "motl_type"), lowers, True]
+
+    def load_dispatch():
+        """Motl.load: [default of motl_type, the emmotl branch is `return EmMotl(<input>)`]"""
+        fn = src.find(rel, "Motl.load")
+        lowers, body = _em_branch(fn, "motl_type")
+        inp = fn.args.args[1].arg
+        ok = len(body) == 1 and isinstance(body[0], ast.Return) and body[0].value is not None \
+            and ast.dump(body[0].value) == ast.dump(ast.parse(f"EmMotl({inp})", mode="eval").body)
+        if not ok:
+            raise core.AnchorMissing("Motl.load: the emmotl branch is `" + "; ".join(ast.unparse(b) for b in body)[:100] + f"` (was `return EmMotl({inp})`)")
+        return [_default_of(fn, "motl_type"), lowers, True]
+
+    wd = src.anchor("Motl.write_out:dispatch(default motl_type, lower(), emmotl branch)", write_dispatch)
+    ld = src.anchor("Motl.load:dispatch(default motl_type, emmotl branch)", load_dispatch)
+    wd = wd if isinstance(wd, list) else ["emmotl", True, True]      # documented fallbacks
+    ld = ld if isinstance(ld, list) else ["emmotl", False, True]
     wf = src.anchor("EmMotl.write_out:array-written(selects motl_columns, fill literal, cast single)", write_facts)
     cols = cols if isinstance(cols, list) and all(isinstance(c, str) for c in cols) else DOCUMENTED
     sel, fill, cs = (wf if isinstance(wf, list) else [True, 0, True])   # documented fallbacks: a missing anchor never changes the model
@@ -198,6 +344,12 @@ def readExpectedColumns : Nat := {n20 if n20 is not None else 20}
 def writeSelectsCanonical : Bool := {"true" if sel else "false"}
 def writeFill : Option Int := {fill_txt}
 def writeCastsSingle : Bool := {"true" if cs else "false"}
+def motlWriteOutDefault : String := {core.lean_str(wd[0])}
+def motlWriteOutLowers : Bool := {"true" if wd[1] else "false"}
+def motlWriteOutEmBranch : Bool := {"true" if wd[2] else "false"}
+def motlLoadDefault : String := {core.lean_str(ld[0])}
+def motlLoadLowers : Bool := {"true" if ld[1] else "false"}
+def motlLoadEmBranch : Bool := {"true" if ld[2] else "false"}
 end CryoCat.Gen.C01
 """
 
@@ -335,6 +487,19 @@ def _one(rng, N, tier):
     case["load"] = rng.choice(["default", "default", "typed", "kw", "ctor"])
     case["path"] = rng.choice(["str", "str", "pathlib"])
     case["same_path_twice"] = rng.random() < 0.2   # G2: the path already holds another (longer) list before the write
+    if N >= 2 and rng.random() < 0.3:              # history: the held list is re-ordered / relabelled between construction and writing
+        order = list(range(N))
+        kind = rng.choice(["shuffle", "reverse", "sort_values", "rotate"])
+        if kind == "shuffle":
+            rng.shuffle(order)
+        elif kind == "reverse":
+            order.reverse()
+        elif kind == "rotate":
+            order = order[1:] + order[:1]
+        else:                                      # m.df.sort_values(<first column>): NaN last, stable
+            key = [b2f(r[0]) for r in rows]
+            order.sort(key=lambda i: (math.isnan(key[i]), 0.0 if math.isnan(key[i]) else key[i]))
+        case["held"] = dict(order=order, how=kind, labels=rng.choice([None, None, "reversed", "constant"]))
     if N >= 2 and rng.random() < 0.25:             # history: load the written file, drop particles, write again
         keep = sorted(rng.sample(range(N), rng.randint(1, N - 1)))
         case["reload_keep"] = keep
@@ -405,12 +570,15 @@ def shrink(case):
         return
     base = {k: v for k, v in case.items() if k != "reload_keep"} if case.get("reload_keep") else case
     if len(rows) > 1:
-        for sub in (rows[:1], rows[:2], rows[: len(rows) // 2], rows[len(rows) // 2:]):
-            if 0 < len(sub) < len(rows):
-                c = dict(base, rows=sub)
-                if case.get("reload_keep"):
-                    keep = [i for i in case["reload_keep"] if i < len(sub)] if sub is not rows[len(rows) // 2:] else []
-                    if keep and len(keep) < len(sub):
+        n = len(rows)
+        for lo, hi in ((0, 1), (0, 2), (0, n // 2), (n // 2, n), (0, n - 1)):
+            if 0 < hi - lo < n:
+                c = dict(base, rows=rows[lo:hi])
+                if case.get("held"):      # the re-ordering restricted to the particles that are left
+                    c["held"] = dict(case["held"], order=[i - lo for i in case["held"]["order"] if lo <= i < hi])
+                if case.get("reload_keep") and lo == 0:
+                    keep = [i for i in case["reload_keep"] if i < hi]
+                    if keep and len(keep) < hi:
                         c["reload_keep"] = keep
                 yield c
     # small distinct integers (keeping which rows are copies of which, so that a failure about repeated rows survives)
@@ -422,7 +590,7 @@ def shrink(case):
     if rows != simple:
         yield dict(case, rows=simple)
     # plain options one at a time
-    for k, plain in (("index", None), ("int_cols", None), ("wtype", "emmotl"), ("load", "default"), ("path", "str"), ("same_path_twice", False), ("build", "dict")):
+    for k, plain in (("held", None), ("index", None), ("int_cols", None), ("wtype", "emmotl"), ("load", "default"), ("path", "str"), ("same_path_twice", False), ("build", "dict")):
         if case.get(k) not in (plain, None) or (k in case and case[k] is None and plain is not None):
             c = dict(case); c.pop(k, None)
             if plain is not None:
@@ -517,6 +685,15 @@ def run_impl(case):
                     mm.df = pd.DataFrame(np.where(mask, np.nan, mm.df.to_numpy(dtype=float)), columns=kept, index=mm.df.index)
                 else:
                     mm = cls(df.copy())
+                h = case.get("held")
+                if h and not malformed:
+                    # the user re-orders the held list between construction and writing (labels travel with the rows, so
+                    # they are no longer 0..n-1 in order), and possibly relabels it
+                    mm.df = mm.df.iloc[h["order"]]
+                    if h.get("labels") == "reversed":
+                        mm.df.index = list(range(len(mm.df) - 1, -1, -1))
+                    elif h.get("labels") == "constant":
+                        mm.df.index = [0] * len(mm.df)
                 stage = "write"
                 if path_kind == "motl":
                     write_motl(mm, p)
@@ -534,7 +711,9 @@ def run_impl(case):
             em = {"hex": open(p, "rb").read().hex()}     # the file itself; judged on bytes by the Lean checker
             m = load(p)
             em["loaded_cols"] = [str(c) for c in m.df.columns]
-            em["loaded"] = _bits64(m.df.to_numpy(dtype=float))
+            # the particles are read BY FIELD NAME (the statement fixes no column order for the loaded table)
+            by_name = sorted(em["loaded_cols"]) == sorted(DOCUMENTED)
+            em["loaded"] = _bits64((m.df[DOCUMENTED] if by_name else m.df).to_numpy(dtype=float))
             em["loaded_type"] = type(m).__name__
             em["loaded_dtypes"] = sorted({str(t) for t in m.df.dtypes})
             if case.get("reload_keep") and path_kind == "emmotl" and len(m.df) == len(rows):   # (a wrong particle count is already a finding)
@@ -544,7 +723,7 @@ def run_impl(case):
                 p2 = os.path.join(td, "again.em")
                 m.write_out(p2)
                 m2 = cryomotl.Motl.load(p2)
-                em["reload"] = dict(hex=open(p2, "rb").read().hex(), loaded=_bits64(m2.df.to_numpy(dtype=float)))
+                em["reload"] = dict(hex=open(p2, "rb").read().hex(), loaded=_bits64((m2.df[DOCUMENTED] if sorted(map(str, m2.df.columns)) == sorted(DOCUMENTED) else m2.df).to_numpy(dtype=float)))
             out[path_kind] = em
     return out
 
@@ -554,6 +733,14 @@ def rng_free_choice(case):
     return (len(case["rows"]) + len(case.get("reload_keep", []))) % 2 == 0
 
 
+def _held(case):
+    """the particle list as HELD when it is written: the constructed list, re-ordered by the user in between when the case
+    says so (`held.order`: m.df = m.df.iloc[order], what sort_values / sample / a boolean mask + concat leave behind) —
+    "the same particles in the same order" is about this list"""
+    h = case.get("held")
+    return [case["rows"][i] for i in h["order"]] if h and not case.get("malformed") else case["rows"]
+
+
 def requests(case, obs):
     """one `roundtrip` request per table: the model's file (bytes), the model's loaded table, and the verdict of the Lean
     checker `checkFile` on the bytes of every REAL file handed over; the load/drop/write-again file is judged against the
@@ -561,17 +748,23 @@ def requests(case, obs):
     if case.get("malformed"):
         return [dict(op="accepts", cols=case["cols"])]
     files = {k: o["hex"] for k, o in obs.items() if isinstance(o, dict) and "hex" in o} if "error" not in obs else {}
-    reqs = [dict(op="roundtrip", cols=case["cols"], rows=case["rows"], files=files)]
+    held = _held(case)
+    reqs = [dict(op="roundtrip", cols=case["cols"], rows=held, files=files)]
+    wt = case.get("wtype", "emmotl" if not case.get("default_type") else None)
+    if wt is not None:                                   # absent key = the keyword was omitted in the real call
+        reqs[0]["wtype"] = wt[3:] if wt.startswith("kw:") else wt
+    if case.get("load", "default") in ("typed", "kw"):
+        reqs[0]["ltype"] = "emmotl"
     for k, o in (obs.items() if "error" not in obs else []):
         if isinstance(o, dict) and "reload" in o:
-            reqs.append(dict(op="roundtrip", cols=case["cols"], rows=[case["rows"][i] for i in case["reload_keep"]], files={"reload": o["reload"]["hex"]}))
+            reqs.append(dict(op="roundtrip", cols=case["cols"], rows=[held[i] for i in case["reload_keep"]], files={"reload": o["reload"]["hex"]}))
     return reqs
 
 
 def _expected(case):
     """the property, evaluated independently of model and implementation: per particle the 20 NAMED fields in the
     documented order, missing -> 0, everything else -> its single-precision rounding (float32 bit patterns)"""
-    cols, rows = case["cols"], case["rows"]
+    cols, rows = case["cols"], _held(case)
     a = _f64(rows)[:, [cols.index(f) for f in DOCUMENTED]]     # by NAME: the column of the table that carries field f
     a = np.where(np.isnan(a), 0.0, a)
     with np.errstate(over="ignore", under="ignore"):
@@ -672,6 +865,9 @@ def judge(case, obs, resps):
     model_ok = "error" not in model
     if not model_ok:
         out.append(dict(kind="corr", clause="model-rejects", detail=str(model)))
+    elif model.get("dispatch") != {"write": True, "load": True}:
+        out.append(dict(kind="corr", clause="dispatch-vs-model", detail=f"the model's Motl.write_out / Motl.load do not reach the EM writer / reader "
+                        f"for motl_type {case.get('wtype')!r} / load {case.get('load')!r}: {model.get('dispatch')}"))
     for k, o in obs.items():
         if "dropped" in o:
             continue
@@ -679,7 +875,8 @@ def judge(case, obs, resps):
         out += _file_findings(k, raw, exp, N, model.get("verdicts", {}).get(k) if model_ok else None, model["file"] if model_ok else None,
                               "file-shape", "file-field-order-or-value")
         if o.get("loaded_dtypes") not in (["float64"], ["float32"]):
-            out.append(dict(kind="spec", clause="loaded-values", detail=f"{k}: loaded table has column dtypes {o.get('loaded_dtypes')} (numbers expected)"))
+            # the statement is silent about the dtype of the loaded table (its values are compared as numbers below)
+            out.append(dict(kind="corr", clause="loaded-dtypes", detail=f"{k}: loaded table has column dtypes {o.get('loaded_dtypes')}, the model's reader gives float64"))
         if "reload" in o:
             keep = case["reload_keep"]
             exp2 = exp.reshape(-1, 20)[keep].reshape(-1)
@@ -691,9 +888,12 @@ def judge(case, obs, resps):
             if not f2 and _same64(r2["loaded"], _widen(exp2)) is not None:
                 out.append(dict(kind="spec", clause="reload-values", detail=f"{k}: second load differs from the kept particles"))
         if o["loaded_cols"] != DOCUMENTED:
-            out.append(dict(kind="spec", clause="loaded-header", detail=f"{k}: {o['loaded_cols']}"))
+            if sorted(o["loaded_cols"]) != sorted(DOCUMENTED):    # a named field is missing / an unknown one appears
+                out.append(dict(kind="spec", clause="loaded-header", detail=f"{k}: loaded table has fields {o['loaded_cols']}"))
+            else:                                                 # all 20 fields there, in another column order: the statement fixes none
+                out.append(dict(kind="corr", clause="loaded-column-order", detail=f"{k}: {o['loaded_cols']} (the model's reader names them in the documented order)"))
         if o.get("loaded_type") != "EmMotl":
-            out.append(dict(kind="spec", clause="loaded-values", detail=f"{k}: loading returned a {o.get('loaded_type')}, not an EmMotl"))
+            out.append(dict(kind="corr", clause="loaded-type", detail=f"{k}: loading returned a {o.get('loaded_type')}, the model's dispatcher an EmMotl"))
         if len(o["loaded"]) != N:
             out.append(dict(kind="spec", clause="loaded-values", detail=f"{k}: {len(o['loaded'])} particles loaded, {N} written"))
         elif _same64(o["loaded"], _widen(exp)) is not None:
@@ -705,6 +905,17 @@ def judge(case, obs, resps):
             if "error" in mt or mt["cols"] != o["loaded_cols"] or _same64(mt["rows"], o["loaded"]) is not None:
                 out.append(dict(kind="corr", clause="load-vs-model", detail=f"{k}: loaded table differs from readEm(writeGen)"))
     return out
+
+
+def probes(rng):
+    """facts about the driver's number operations that no kernel-checked lemma can state (Lean's Float is opaque):
+    the fill value `floatOps.bits32 (floatOps.ofInt 0)` IS the float32 +0.0, `ofInt 0` is +0.0, NaN is recognised"""
+    try:
+        r = core.run_driver([dict(prop=PROP, op="zero_bits")])[0]
+        ok = r == {"bits32": 0, "bits64": 0, "nan_is_nan": True, "zero_is_nan": False}
+        return [dict(name="float-zero-bits", ok=ok, detail="" if ok else f"driver floatOps: {r}")]
+    except Exception as e:
+        return [dict(name="float-zero-bits", ok=False, detail=f"{type(e).__name__}: {e}")]
 
 
 def nontrivial(case, obs):
@@ -724,6 +935,7 @@ def stats(case, obs, resps):
     nb = "1" if n == 1 else ("20" if n == 20 else ("2-10" if n <= 10 else ("11-40" if n <= 40 else ("41-999" if n < 1000 else ("1000-4095" if n < 4096 else ("4096-32768" if n <= 32768 else ">32768"))))))
     return {"N": nb, "perm": perm, "build": case.get("build", "dict"),
             "history": "load-drop-write" if case.get("reload_keep") else "single round trip",
+            "held_list": (case["held"].get("how", "given") + "/labels:" + str(case["held"].get("labels"))) if case.get("held") else "as constructed",
             "row_index": case.get("index", "default"), "write_type": str(case.get("wtype", "emmotl")), "load_call": case.get("load", "default"),
             "load_path": case.get("path", "str"), "path_reused": bool(case.get("same_path_twice")),
             "repeated_rows": case.get("dup", "none"), "int64_columns": len(case.get("int_cols") or []),
@@ -734,7 +946,8 @@ def stats(case, obs, resps):
 
 def sample_view(case):
     return dict(cols=case["cols"], n_rows=len(case["rows"]), first_row=[b2f(b) for b in case["rows"][0]], build=case.get("build"), malformed=case.get("malformed", False),
-                **{k: case[k] for k in ("dup", "int_cols", "index", "wtype", "load", "path") if case.get(k) is not None})
+                **{k: case[k] for k in ("dup", "int_cols", "index", "wtype", "load", "path") if case.get(k) is not None},
+                **({"held": {k: v for k, v in case["held"].items() if k != "order"}} if case.get("held") else {}))
 
 LEVEL_TEXT = ("Lean 4 theorems about an executable model of EmMotl.write_out/read_in and of the EM byte layout, for every column order, every N>=1 "
               "and all cell values (em_roundtrip, em_roundtrip_named, em_roundtrip_gen, em_roundtrip_bytes, decodeEm_encodeEm, checkFile_ok_iff, "
